@@ -140,3 +140,47 @@ def bound_args(model, func, call):
     except Unrecognised:
         return None
     return {p: (unparse(n) if isinstance(n, ast.AST) else repr(n)) for p, n in b.items()}
+
+
+def check_operator_results_not_updated(run, eff, rule, funcs, why):
+    """no in-place update of a value returned by an opaque callable (an operator application A(x), A.H(u), A.N(x), a user function): such
+    a callable may hand back its very argument (Identity, Reshape, FFT's Identity normal operator, `lambda u: u`), so the update would
+    overwrite the iterate / the caller's array it was computed from.  `funcs` = Func objects to examine; also flags writes to their
+    own array parameters when `why` says so."""
+    n = 0
+    for f in funcs:
+        sm = eff.of(f.qual)
+        n += 1
+        if not sm.opaque_mut:
+            run.ok(rule, f.qual, "no in-place update of an operator/callable result", f.loc())
+        for node, how in sm.opaque_mut[:3]:
+            run.bad(rule, f.qual, f.loc(node), "%s updates in place a value that an operator or user callable returned (`%s`: %s): when that callable returns its "
+                    "argument itself (Identity, Reshape, an Identity normal operator, `lambda u: u`) this overwrites %s" % (f.qual, unparse(node)[:70], how, why), stmt=node)
+    return n
+
+
+def check_no_memoisation(run, model, rule, modules, why):
+    """functions of the given modules neither carry a memoising decorator (functools.lru_cache / cache / a *memo* wrapper) nor keep
+    results in a module-level container: a cached array is handed to every later caller, and a cached buffer keeps what an earlier call
+    left in it -- either way the result stops being a function of the arguments of *this* call"""
+    n = 0
+    for q, f in sorted(model.funcs.items()):
+        if f.mod.name not in modules:
+            continue
+        n += 1
+        # the decorator's own name (numba's `jit(cache=True)` is a compile cache, not a result cache)
+        caching = [unparse(d) for d in f.node.decorator_list
+                   if any(w in unparse(d.func if isinstance(d, ast.Call) else d).lower() for w in ("cache", "memo"))]
+        if caching:
+            run.bad(rule, q, f.loc(), "%s is decorated with %s: %s" % (q, caching, why), stmt="%s:%s" % (rule, q))
+        # stores into module-level containers
+        glob = {t.id for n_ in f.mod.tree.body if isinstance(n_, ast.Assign) for t in n_.targets if isinstance(t, ast.Name)
+                and isinstance(n_.value, (ast.Dict, ast.List, ast.Set, ast.Call))}
+        local = {a.arg for a in f.node.args.args + f.node.args.kwonlyargs} | {x.id for x in ast.walk(f.node) if isinstance(x, ast.Name) and isinstance(x.ctx, ast.Store)}
+        for n_ in ast.walk(f.node):
+            tg = n_.targets if isinstance(n_, ast.Assign) else ([n_.target] if isinstance(n_, ast.AugAssign) else [])
+            for t in tg:
+                if isinstance(t, ast.Subscript) and isinstance(t.value, ast.Name) and t.value.id in glob and t.value.id not in local:
+                    run.bad(rule, q, f.loc(n_), "%s stores into the module-level container `%s` (`%s`): %s" % (q, t.value.id, unparse(n_)[:60], why), stmt=n_)
+    run.ok(rule, ", ".join(modules), "%d functions examined: no memoising decorator, no module-level result cache" % n)
+    return n
